@@ -97,3 +97,25 @@ Proof.
   - split; [apply (asset_denom_u "usd")|]. split; [apply (asset_denom_u "usdc")|]. split; [apply (asset_denom_u "om")|].
     rewrite Hw. clear. vm_compute. repeat split; try reflexivity. discriminate.
 Qed.
+
+(* ---------- the first deposit of ops0 meets the hypotheses of LockedLiquidity.first_deposit_locks_forever, and after the
+   rest of ops0 (swap, single-asset deposit, donation, locked deposit, farm operations, withdrawal) the pool manager's
+   surplus of the LP denom is exactly the minimum liquidity ---------- *)
+Definition lock_statement : Prop :=
+  exists w0, genesis_world g0 = Ok w0 /\
+    let w1 := run w0 (firstn 1 ops0) in
+    (exists p, pool_find (w_pm w1) "o.a" = Ok p /\ p_type p = ConstantProduct /\ p_lp p = lp0 /\ supply (w_bank w1) lp0 = 0) /\
+    snd (step w1 (nth 1 ops0 (SetFault 0))) = true /\
+    slackP (run w1 (skipn 1 ops0)) lp0 = MINIMUM_LIQUIDITY_AMOUNT.
+
+Lemma lock_example : lock_statement.
+Proof.
+  unfold lock_statement.
+  destruct (genesis_world g0) as [w0|e] eqn:E; [|vm_compute in E; discriminate].
+  exists w0. split; [reflexivity|]. cbv zeta.
+  assert (Hw : w0 = match genesis_world g0 with Ok w => w | Err _ => w0 end) by (rewrite E; reflexivity).
+  rewrite Hw. clear. split; [|split].
+  - eexists. split; [vm_compute; reflexivity|]. vm_compute. repeat split; reflexivity.
+  - vm_compute. reflexivity.
+  - vm_compute. reflexivity.
+Qed.
